@@ -50,13 +50,18 @@ var heapTargets = []target{
 	{"simple_tree_mkdirer.go", "defaultMkdirerSimple.makeDirectoriesAndFiles"},
 	{"simple_tree_mkdirer.go", "defaultMkdirerSimple.mkdirAll"},
 	{"simple_tree_mkdirer.go", "defaultMkdirerSimple.mkfile"},
+	{"simple_tree_walker.go", "defaultWalkerSimple.walk"},
+	{"simple_tree_walker.go", "defaultWalkerSimple.walkNode"},
+	{"simple_tree_spreader.go", "defaultSpreaderSimple.spread"},
+	{"simple_tree_spreader.go", "defaultSpreaderSimple.spreadBranch"},
 }
 
 // structs that live in the heap (handled through pointers) and value structs generated here; other value structs
 // (branch, branchFormat) are the ones of Generated/Source.lean
 var heapStructs = map[string]string{"Node": "node.go"}
 var heapValueStructs = map[string]string{"defaultGrowerSimple": "simple_tree_grower.go", "fileConsiderer": "file_considerer.go",
-	"defaultMkdirerSimple": "simple_tree_mkdirer.go"}
+	"defaultMkdirerSimple": "simple_tree_mkdirer.go", "defaultWalkerSimple": "simple_tree_walker.go",
+	"defaultSpreaderSimple": "simple_tree_spreader.go"}
 var srcStructs = map[string]string{"branch": "node.go", "branchFormat": "simple_tree_grower.go"}
 
 type hfn struct {
@@ -71,6 +76,8 @@ type hfn struct {
 	mutates  bool // assigns through a heap pointer
 	usesFS   bool // reads the file system (os.Stat)
 	writesFS bool // changes the file system (os.MkdirAll, os.Create)
+	usesCB   bool // calls a user callback (whose state is threaded)
+	writesW  bool // writes to the caller's io.Writer
 	fuel     bool
 	rec      bool
 	calls    map[string]bool
@@ -97,9 +104,24 @@ func typeStr(e ast.Expr) string {
 		return "[]" + typeStr(x.Elt)
 	case *ast.SelectorExpr:
 		return typeStr(x.X) + "." + x.Sel.Name
+	case *ast.FuncType:
+		var ps, rs []string
+		for _, p := range x.Params.List {
+			ps = append(ps, typeStr(p.Type))
+		}
+		if x.Results != nil {
+			for _, r := range x.Results.List {
+				rs = append(rs, typeStr(r.Type))
+			}
+		}
+		return "func(" + strings.Join(ps, ",") + ") " + strings.Join(rs, ",")
 	}
 	return "?"
 }
+
+// the type of a user callback: it is handed a *WalkerNode (here: the pointer to the node the WalkerNode wraps) and
+// returns an error; its own state is threaded through the translation as the world component `cbs_`
+const callbackType = "func(*WalkerNode) error"
 
 func (t *htr) fail(pos token.Pos, format string, a ...any) string {
 	msg := fmt.Sprintf("%s: %s", t.fset.Position(pos), fmt.Sprintf(format, a...))
@@ -119,6 +141,8 @@ func (t *htr) leanType(g string) string {
 		return "(Option Src.Err)"
 	case "[]string":
 		return "(List Bytes)"
+	case callbackType:
+		return "(Go.Ptr → σ → σ × (Option Src.Err))"
 	}
 	if strings.HasPrefix(g, "*") {
 		if _, ok := heapStructs[g[1:]]; ok {
@@ -285,12 +309,15 @@ type ext struct {
 	writes  bool
 	nargs   int
 	results []string
+	world   string // the world component it works on: fs_ (file system) or w_ (the caller's writer)
+	skip    int    // leading Go arguments that are the world itself (the io.Writer of fmt.Fprint)
 }
 
 var externals = map[string]ext{
-	"os.Stat":     {"Go.os_Stat", false, 1, []string{"~os.FileInfo", "error"}},
-	"os.MkdirAll": {"Go.os_MkdirAll", true, 1, []string{"error"}},
-	"os.Create":   {"Go.os_Create", true, 1, []string{"~*os.File", "error"}},
+	"os.Stat":     {"Go.os_Stat", false, 1, []string{"~os.FileInfo", "error"}, "fs_", 0},
+	"os.MkdirAll": {"Go.os_MkdirAll", true, 1, []string{"error"}, "fs_", 0},
+	"os.Create":   {"Go.os_Create", true, 1, []string{"~*os.File", "error"}, "fs_", 0},
+	"fmt.Fprint":  {"Go.fmt_Fprint", true, 1, []string{"~int", "error"}, "w_", 1},
 }
 
 func extOf(call *ast.CallExpr) (ext, bool) {
@@ -312,12 +339,24 @@ func (f *hfn) outs() []string {
 	if f.writesFS {
 		o = append(o, "fs_")
 	}
+	if f.usesCB {
+		o = append(o, "cbs_")
+	}
+	if f.writesW {
+		o = append(o, "w_")
+	}
 	return o
 }
 func (f *hfn) ins() []string {
 	i := []string{"h_"}
 	if f.usesFS || f.writesFS {
 		i = append(i, "fs_")
+	}
+	if f.usesCB {
+		i = append(i, "cbs_")
+	}
+	if f.writesW {
+		i = append(i, "w_")
 	}
 	return i
 }
@@ -326,26 +365,30 @@ func (f *hfn) ins() []string {
 type callee struct {
 	fn      *hfn
 	ext     *ext
+	cb      string // a call of the callback parameter of this name
 	outs    []string
 	results []string // Go result types; "~…" = not represented
 	fuel    bool
 }
 
 func (t *htr) resolve(sc *hscope, call *ast.CallExpr) *callee {
+	if idt, ok := call.Fun.(*ast.Ident); ok && sc.vars[idt.Name] == callbackType {
+		return &callee{cb: idt.Name, outs: []string{"cbs_"}, results: []string{"error"}}
+	}
 	if g, _ := t.calleeOf(sc, call); g != nil {
 		return &callee{fn: g, outs: g.outs(), results: g.results, fuel: g.fuel}
 	}
 	if e, ok := extOf(call); ok {
 		var o []string
 		if e.writes {
-			o = []string{"fs_"}
+			o = []string{e.world}
 		}
 		return &callee{ext: &e, outs: o, results: e.results}
 	}
 	return nil
 }
 
-func (c *callee) effectful() bool { return len(c.outs) > 0 || c.fuel || c.ext != nil }
+func (c *callee) effectful() bool { return len(c.outs) > 0 || c.fuel || c.ext != nil || c.cb != "" }
 
 func (sc *hscope) clone() *hscope {
 	m := map[string]string{}
@@ -474,6 +517,13 @@ func (t *htr) scopeOf(f *hfn) *hscope {
 func (t *htr) analyse() {
 	hasLoop := map[string]bool{}
 	for _, f := range t.fns {
+		for _, p := range f.params {
+			if p[1] == callbackType {
+				f.usesCB = true
+			}
+		}
+	}
+	for _, f := range t.fns {
 		sc := t.scopeOf(f)
 		// a rough scope for typing receivers of calls: parameters plus every `x := <expr>` / range variable seen
 		ast.Inspect(f.decl.Body, func(n ast.Node) bool {
@@ -503,9 +553,13 @@ func (t *htr) analyse() {
 					f.calls[g.key] = true
 				}
 				if e, ok := extOf(x); ok {
-					f.usesFS = true
-					if e.writes {
-						f.writesFS = true
+					if e.world == "w_" {
+						f.writesW = true
+					} else {
+						f.usesFS = true
+						if e.writes {
+							f.writesFS = true
+						}
 					}
 				}
 			}
@@ -549,6 +603,12 @@ func (t *htr) analyse() {
 				}
 				if g.writesFS && !f.writesFS {
 					f.writesFS, changed = true, true
+				}
+				if g.usesCB && !f.usesCB {
+					f.usesCB, changed = true, true
+				}
+				if g.writesW && !f.writesW {
+					f.writesW, changed = true, true
 				}
 			}
 		}
@@ -731,9 +791,22 @@ func (t *htr) ex(sc *hscope, e ast.Expr, want string) string {
 
 // call: the Lean application for a call of a translated function or an external (fuel and world components first)
 func (t *htr) call(sc *hscope, x *ast.CallExpr, c *callee) string {
+	if c.cb != "" {
+		// callback(&WalkerNode{origin: p}): the callback is handed the node
+		if len(x.Args) == 1 {
+			if u, ok := x.Args[0].(*ast.UnaryExpr); ok && u.Op == token.AND {
+				if cl, ok := u.X.(*ast.CompositeLit); ok && typeStr(cl.Type) == "WalkerNode" && len(cl.Elts) == 1 {
+					if kv, ok := cl.Elts[0].(*ast.KeyValueExpr); ok && kv.Key.(*ast.Ident).Name == "origin" {
+						return "(" + id(c.cb) + " " + t.ex(sc, kv.Value, "*Node") + " cbs_)"
+					}
+				}
+			}
+		}
+		return t.fail(x.Pos(), "argument of the callback")
+	}
 	if c.ext != nil {
-		parts := []string{c.ext.lean, "fs_"}
-		for i := 0; i < c.ext.nargs && i < len(x.Args); i++ {
+		parts := []string{c.ext.lean, c.ext.world}
+		for i := c.ext.skip; i < c.ext.skip+c.ext.nargs && i < len(x.Args); i++ {
 			parts = append(parts, t.ex(sc, x.Args[i], t.typeOf(sc, x.Args[i])))
 		}
 		return "(" + strings.Join(parts, " ") + ")"
@@ -752,6 +825,9 @@ func (t *htr) call(sc *hscope, x *ast.CallExpr, c *callee) string {
 	for i, a := range x.Args {
 		if g.variadic && i >= np-1 {
 			break
+		}
+		if g.params[i][1] == "io.Writer" {
+			continue // the writer is the world component w_
 		}
 		parts = append(parts, t.ex(sc, a, g.params[i][1]))
 	}
@@ -1102,6 +1178,9 @@ func (t *htr) assignH(sc *hscope, x *ast.AssignStmt, c *hcont, ind string) strin
 		if x.Tok != token.ASSIGN {
 			break
 		}
+		if t.typeOf(sc, l) == "io.Writer" {
+			return "" // `ds.w = w`: the writer is the world component w_
+		}
 		// p.f1.f2 = e   with p a heap pointer
 		var path []string
 		var base ast.Expr = l
@@ -1185,7 +1264,19 @@ func (t *htr) render() string {
 				continue
 			}
 			b.WriteString("structure " + s + " where\n")
+			nf := 0
 			for _, f := range t.structs[s] {
+				if t.leanType(f[1]) != "untranslatable" {
+					nf++
+				}
+			}
+			if nf == 0 {
+				b.WriteString("  mk ::\n")
+			}
+			for _, f := range t.structs[s] {
+				if t.leanType(f[1]) == "untranslatable" {
+					continue // an io.Writer, …: not part of the translated state
+				}
 				b.WriteString("  " + id(f[0]) + " : " + t.leanType(f[1]) + "\n")
 			}
 			b.WriteString("\n")
@@ -1232,6 +1323,13 @@ func (t *htr) render() string {
 	return b.String() + fb.String() + "end Gtree.SrcH\n"
 }
 
+func tyParams(f *hfn) string {
+	if f.usesCB {
+		return " {σ : Type}"
+	}
+	return ""
+}
+
 func (t *htr) function(f *hfn) string {
 	var b strings.Builder
 	sc := t.scopeOf(f)
@@ -1241,14 +1339,22 @@ func (t *htr) function(f *hfn) string {
 		sig.WriteString(" (" + id(f.recvName) + " : " + t.leanType(f.recvType) + ")")
 	}
 	for _, p := range f.params {
+		if p[1] == "io.Writer" {
+			continue // the writer is the world component w_
+		}
 		sig.WriteString(" (" + id(p[0]) + " : " + t.leanType(p[1]) + ")")
 	}
 	var rts []string
 	for _, o := range f.outs() {
-		if o == "h_" {
+		switch o {
+		case "h_":
 			rts = append(rts, "Heap")
-		} else {
+		case "fs_":
 			rts = append(rts, "FS")
+		case "w_":
+			rts = append(rts, "Go.Writer")
+		default:
+			rts = append(rts, "σ")
 		}
 	}
 	for _, r := range f.results {
@@ -1270,17 +1376,23 @@ func (t *htr) function(f *hfn) string {
 	if f.usesFS || f.writesFS {
 		fsig = " (fs_ : FS)"
 	}
+	if f.usesCB {
+		fsig += " (cbs_ : σ)"
+	}
+	if f.writesW {
+		fsig += " (w_ : Go.Writer)"
+	}
 	if f.rec {
 		// a recursive function: structural recursion on the fuel
-		b.WriteString("def " + leanFn(f) + " (fuel_ : Nat) (h_ : Heap)" + fsig + sig.String() + " : " + rt + " :=\n")
+		b.WriteString("def " + leanFn(f) + tyParams(f) + " (fuel_ : Nat) (h_ : Heap)" + fsig + sig.String() + " : " + rt + " :=\n")
 		b.WriteString("  match fuel_ with\n  | 0 => none\n  | fuel_ + 1 =>\n")
 		b.WriteString(t.seq(sc, f.decl.Body.List, c, "    "))
 		return b.String()
 	}
 	if f.fuel {
-		b.WriteString("def " + leanFn(f) + " (fuel_ : Nat) (h_ : Heap)" + fsig + sig.String() + " : " + rt + " :=\n")
+		b.WriteString("def " + leanFn(f) + tyParams(f) + " (fuel_ : Nat) (h_ : Heap)" + fsig + sig.String() + " : " + rt + " :=\n")
 	} else {
-		b.WriteString("def " + leanFn(f) + " (h_ : Heap)" + fsig + sig.String() + " : " + rt + " :=\n")
+		b.WriteString("def " + leanFn(f) + tyParams(f) + " (h_ : Heap)" + fsig + sig.String() + " : " + rt + " :=\n")
 	}
 	b.WriteString(t.seq(sc, f.decl.Body.List, c, "  "))
 	return b.String()
